@@ -112,6 +112,13 @@ def check_base58(ctx, o=lambda k: "C07.%d" % k):
     R = ctx.R
     ev = ctx.evaluator()
     site = ("src/bits/base58.py", "bits.base58")
+    # no hidden state: the functions this property is about (and what they call) do not write module-level state, so a
+    # verdict cannot depend on the history of earlier calls
+    hs = rules.hidden_state(ctx.prog, [ctx.fn(q) for q in (B58 + "base58encode", B58 + "base58decode", B58 + "base58check", B58 + "base58check_decode", B58 + "is_base58check")])
+    R.check(o(4), "OWN", ctx.fn(B58 + "base58decode"), "no module-level state is written on these paths (results do not depend on earlier calls)", not hs,
+            "%s %s" % ((hs[0][0].qualname, hs[0][2]) if hs else ("", "")), line=hs[0][1].lineno if hs else None,
+            example="the same call repeated in one process after a call with other arguments / a failed call")
+
     al = ev.const("bits.base58", "BITCOIN_ALPHABET")
     R.check(o(1), "TABLE", site, "alphabet", al == ALPHABET and len(set(ALPHABET)) == 58 and not (set(b"0OIl") & set(ALPHABET)),
             "the Base58 alphabet differs from Bitcoin's", nontrivial=False)
